@@ -174,6 +174,10 @@ func (e *c04Env) buildWorld(base sdk.Context, wi int) *c04World {
 	for i := 0; i < 9; i++ { // more active restricted markers: the access matrix is what varies
 		add(c04Marker, true, markertypes.StatusActive, c04ReqSets[r.Intn(len(c04ReqSets))])
 	}
+	// marker-less denoms that sort AFTER the marker denoms (the first two sort before them): the
+	// per-coin loops must not stop at a coin without a marker, whatever its position
+	add(c04Absent, false, 0, nil)
+	add(c04Squatted, false, 0, nil)
 
 	// accounts
 	for _, a := range e.order {
@@ -317,6 +321,7 @@ type c04Query struct {
 	agents     []sdk.AccAddress
 	bypass, fg bool
 	amt        sdk.Coins
+	toModule   string // when set, the "send" bank path is SendCoinsFromAccountToModule(from, toModule)
 }
 
 func (e *c04Env) qctx(ctx sdk.Context, q *c04Query) sdk.Context {
@@ -519,6 +524,9 @@ func (e *c04Env) bank(w *c04World, q *c04Query, which string) (string, string) {
 	err := try(func() error {
 		switch which {
 		case "send":
+			if q.toModule != "" {
+				return bk.SendCoinsFromAccountToModule(cctx, q.from, q.toModule, q.amt)
+			}
 			return bk.SendCoins(cctx, q.from, q.to, q.amt)
 		case "io":
 			return bk.InputOutputCoins(cctx, banktypes.Input{Address: q.from.String(), Coins: q.amt},
@@ -570,6 +578,9 @@ func (e *c04Env) emit(w *c04World, q *c04Query, bankSend, bankIO, bankDeleg bool
 	desc["kind"] = "send"
 	desc["send_restriction_fn_allowed"] = ok
 	desc["send_coins"] = sd
+	if q.toModule != "" {
+		desc["send_coins_via"] = "SendCoinsFromAccountToModule(" + q.toModule + ")"
+	}
 	desc["input_output_coins"] = id
 	desc["delegate_coins"] = dd
 	e.w.Add(term, desc)
@@ -846,6 +857,75 @@ func TestC04(t *testing.T) {
 							}
 							e.emit(w, q, true, n%4 == 0, toIsModule && n%2 == 0, "single_denom_product")
 							n++
+						}
+					}
+				}
+			}
+		}
+
+		// ---- (d) bypass branch x fee collector x every order of marker-less / unrestricted /
+		// restricted denoms in a two- or three-denom amount (each coin must be looked at) ----
+		if wi == 0 || tier() == "thorough" {
+			var pool []*c04MarkerCfg
+			seenClass := map[string]int{}
+			for _, m := range w.markers {
+				cl := fmt.Sprintf("%d/%v/%v", m.kind, m.restricted, m.status)
+				lim := 2
+				if m.kind == c04Marker && m.restricted && m.status == markertypes.StatusActive {
+					lim = 3
+				}
+				if seenClass[cl] < lim && (m.kind != c04Marker || m.status == markertypes.StatusActive || seenClass[cl] < 1) {
+					seenClass[cl]++
+					pool = append(pool, m)
+				}
+			}
+			// the last active restricted marker as well, so that a restricted denom also sorts late
+			pool = append(pool, restrictedActive[len(restrictedActive)-1])
+			type sf struct {
+				from       sdk.AccAddress
+				bypass, fg bool
+			}
+			srcs := []sf{{e.plain[0].addr, true, false}, {e.mmod.addr, false, false}, {e.ibcmod.addr, false, false}, {e.agents[0].addr, true, true}, {e.plain[1].addr, false, false}}
+			dsts := []sdk.AccAddress{e.feeColl.addr, e.bypass[0].addr}
+			var amounts [][]*c04MarkerCfg
+			for i := 0; i < len(pool); i++ {
+				for j := i + 1; j < len(pool); j++ {
+					if pool[i] == pool[j] {
+						continue
+					}
+					amounts = append(amounts, []*c04MarkerCfg{pool[i], pool[j]})
+					for k := j + 1; k < len(pool); k++ {
+						if pool[k] != pool[i] && pool[k] != pool[j] {
+							amounts = append(amounts, []*c04MarkerCfg{pool[i], pool[j], pool[k]})
+						}
+					}
+				}
+			}
+			n := 0
+			for _, ms := range amounts {
+				for _, sfrom := range srcs {
+					for _, to := range dsts {
+						q := &c04Query{from: sfrom.from, to: to, bypass: sfrom.bypass, fg: sfrom.fg, amt: amtOf(ms...)}
+						if to.Equals(e.feeColl.addr) {
+							q.toModule = authtypes.FeeCollectorName
+						}
+						e.emit(w, q, true, n%3 == 0, n%3 == 1, "bypass_fee_collector_orders")
+						n++
+						kinds := map[string]bool{}
+						first := ""
+						for _, c := range q.amt {
+							m := w.byAddr[string(markertypes.MustGetMarkerAddress(c.Denom))]
+							k := "none"
+							if m.kind == c04Marker {
+								k = map[bool]string{true: "restricted", false: "coin"}[m.restricted]
+							}
+							kinds[k] = true
+							if first == "" {
+								first = k
+							}
+						}
+						if to.Equals(e.feeColl.addr) && (sfrom.bypass || !sfrom.from.Equals(e.plain[1].addr)) && first == "none" && kinds["restricted"] {
+							cw.Count("bypass_to_fee_collector_markerless_first_then_restricted")
 						}
 					}
 				}
